@@ -184,14 +184,6 @@ func registerIntrinsics(x *Exec) {
 		x.events = append(x.events, Event{Kind: "ReadFile", Args: []Value{args[0]}})
 		return Agg{Agg{c64(0), c64(0), c64(0)}, x.opaqueIface("os.ReadFile:ENOENT")}
 	}
-	// pthread mutexes without a scheduler: single-threaded, no-ops
-	const pSync = "github.com/goplus/llgo/runtime/internal/clite/pthread/sync."
-	for _, n := range []string{"(*" + pSync + "Mutex).Init", "(*" + pSync + "Mutex).Lock", "(*" + pSync + "Mutex).Unlock", "(*" + pSync + "Mutex).Destroy",
-		"(*" + pSync + "Once).Do"} {
-		if _, ok := in[n]; !ok {
-			in[n] = noop
-		}
-	}
 	// ---- pthread keys, TLS, setjmp/longjmp (single thread unless a scheduler runs) ----
 	const pPth = "github.com/goplus/llgo/runtime/internal/clite/pthread."
 	in["(*"+pPth+"Key).Create"] = func(x *Exec, fr *frame, args []Value, _ *ssa.CallCommon) Value {
